@@ -145,7 +145,6 @@ func oracleC10extra(s *Sim) {
 		if v.r.Transport != TInproc || v.hStart == nil {
 			continue
 		}
-		exp := v.expectedIncoming()
 		for _, ev := range v.ev {
 			if ev.Op != "readmd" {
 				continue
@@ -154,7 +153,7 @@ func oracleC10extra(s *Sim) {
 				v.fail("C10", "caller-metadata-mutation-visible", "the handler's incoming metadata at seq %d shows a key the caller added to its metadata object after starting the call", ev.Seq)
 				continue
 			}
-			if ok, why := mdContains(ev.MD, exp); !ok {
+			if ok, why := v.incomingOK(ev.MD); !ok {
 				v.fail("C10", "caller-metadata-mutation-visible", "the handler's incoming metadata read at seq %d differs from what the caller attached: %s", ev.Seq, why)
 			}
 		}
